@@ -51,6 +51,12 @@ MANIFEST = {
 }
 
 ULIMIT_KB = 2000000
+# confirmed hangs a run waits for (harness flag -maxhang): per phase; the search gets what the correspondence left, at least 1
+HANG_CAP = 2
+# wall-clock limit of one run of a command line tool on a (small) hostile file, and the number of timed-out runs after
+# which the remaining files are not run any more
+TOOL_TIMEOUT = 6
+TOOL_HANG_CAP = 2
 # further theorem files of C16 (each one re-checked and audited like C16Theorems.v)
 EXTRA_THEOREM_FILES = ["C16TheoremsParse.v", "C16TheoremsAux.v", "C16TheoremsConfRec.v", "C16TheoremsHevc.v"]
 
@@ -90,7 +96,7 @@ def run(ctx):
     prs = [pr] + [ctx.proofs("c16", f) for f in EXTRA_THEOREM_FILES]
     # correspondence
     n = ctx.n(5000, 60000)
-    rc, cases, e = sh2(limited(exe, ["corr", "-seed", ctx.seed, "-n", n]), timeout=3000)
+    rc, cases, e = sh2(limited(exe, ["corr", "-seed", ctx.seed, "-n", n, "-maxhang", HANG_CAP]), timeout=3000)
     if rc != 0:
         raise common.CheckError("harness corr failed: " + e[-1000:])
     lines = cases.splitlines()
@@ -119,9 +125,27 @@ def run(ctx):
     }
     ctx.cov["samples"] += [l[:300] for l in lines[40:43]] + [l[:300] for l in lines[-3:]]
     ctx.log("correspondence: %d cases, %d mismatches, classes %s" % (len(lines), len(mism), classes))
+    # a hang confirmed by the correspondence run (real code, isolated worker, confirmation run) is a failing input
+    # of the property itself: it is reported from here, and the search does not wait for the same target again
+    # (every confirmed hang costs ~7 s of wall clock; HANG_CAP bounds the number of them a run waits for)
+    reported = 0
+    hung = {}
+    for l in lines:
+        f = l.split("\t")
+        if len(f) > 5 and f[5] == "hang" and f[2] not in hung:
+            hung[f[2]] = f
+    for t, f in sorted(hung.items()):
+        w = f[3] + (" arg=" + f[4] if f[4] != "0" else "")
+        if ctx.failing_input(t, "hang", w, "no answer within the wall-clock budget (correspondence run, confirmed on a fresh worker)",
+                             extra={"target": t, "input_hex": f[3], "arg": int(f[4])}):
+            reported += 1
+    ctx.notes["corr_confirmed_hangs"] = sorted(hung)
     # search: the property itself on the implementation
     ns = ctx.n(60000, 1200000)
-    rc, so, e = sh2(limited(exe, ["search", "-seed", ctx.seed, "-n", ns]), timeout=3000)
+    sargs = ["search", "-seed", ctx.seed, "-n", ns, "-maxhang", max(1, HANG_CAP - len(hung))]
+    if hung:
+        sargs += ["-skip", "'%s'" % ",".join(sorted(hung))]
+    rc, so, e = sh2(limited(exe, sargs), timeout=3000)
     if rc != 0:
         raise common.CheckError("harness search failed: " + e[-1000:])
     fails = []
@@ -132,7 +156,6 @@ def run(ctx):
         elif f[0] == "EVALS":
             ctx.cov["evaluations"] += int(f[1])
             ctx.notes["search_evaluations"] = int(f[1])
-    reported = 0
     for f in fails:
         w = f[3].split(" arg=")
         if ctx.failing_input(f[1], f[2], f[3], f[4],
@@ -175,16 +198,20 @@ def run_tools(ctx, exe, nfiles):
         raise common.CheckError("harness files failed: " + e[-1000:])
     runs = 0
     fails = {}
+    timed_out = 0
     for f in sorted(os.listdir(d)):
+        if timed_out >= TOOL_HANG_CAP:
+            break
         codec = f.split("_")[0]
         path = os.path.join(d, f)
         for site, cmd in (("cmd/mp4ff-nallister", "'%s' -annexb -c %s -sei 1 '%s'" % (nal, codec, path)),
                           ("cmd/mp4ff-pslister", "'%s' -c %s -v -i '%s'" % (psl, codec, path))):
-            rc, so, e = sh2("ulimit -v %d; exec %s" % (ULIMIT_KB, cmd), timeout=20)
+            rc, so, e = sh2("ulimit -v %d; exec %s" % (ULIMIT_KB, cmd), timeout=TOOL_TIMEOUT)
             runs += 1
             cls = None
             if rc == 124:
                 cls = "hang"
+                timed_out += 1
             elif "out of memory" in e or "cannot allocate" in e:
                 cls = "overalloc"
             elif rc not in (0, 1) or "panic:" in e or "fatal error" in e:
